@@ -108,7 +108,7 @@ Record node : Type := {
   n_routes : list route; n_apps : list app;
   n_app_waiting : list (Z * Z * nat);           (* (hbh, e2e) -> application index *)
   n_peer_waiting : list (string * list (Z * Z)); (* host identity -> (hop-by-hop, end-to-end) ids awaiting an application answer *)
-  n_origin_waiting : list (Z * Z * string);     (* (hbh, e2e) -> origin host *)
+  n_origin_waiting : list (nat * Z * Z * string);   (* (connection, hbh, e2e) -> origin host *)
   n_sent_answers : list (string * list Z);      (* origin host -> last answered end-to-end ids (bounded) *)
   n_e2e : Z                                     (* SequenceGenerator state of end_to_end_seq *)
 }.
@@ -172,7 +172,7 @@ Definition set_tables (n : node) (hr sp : list nat) : node :=
      n_app_waiting := n_app_waiting n; n_peer_waiting := n_peer_waiting n;
      n_origin_waiting := n_origin_waiting n; n_sent_answers := n_sent_answers n; n_e2e := n_e2e n |}.
 Definition set_waiting (n : node) (aw : list (Z * Z * nat)) (pw : list (string * list (Z * Z)))
-           (ow : list (Z * Z * string)) (sa : list (string * list Z)) : node :=
+           (ow : list (nat * Z * Z * string)) (sa : list (string * list Z)) : node :=
   {| n_cfg := n_cfg n; n_now := n_now n; n_io_deadline := n_io_deadline n; n_stopping := n_stopping n;
      n_peers := n_peers n; n_conns := n_conns n; n_next_cid := n_next_cid n; n_half_ready := n_half_ready n;
      n_socket_peers := n_socket_peers n; n_routes := n_routes n; n_apps := n_apps n;
@@ -265,20 +265,23 @@ Fixpoint sa_append (k : nat) (sa : list (string * list Z)) (origin : string) (e2
   | (o, l) :: r => if String.eqb o origin then (o, bounded_append k l e2e) :: r
                    else (o, l) :: sa_append k r origin e2e
   end.
-Definition record_answer (n : node) (hbh e2e : Z) : node :=
-  match List.find (fun x => let '(h, e, _) := x in (h =? hbh) && (e =? e2e)) (n_origin_waiting n) with
+(* the origin table is keyed by connection AND identifiers: hop-by-hop identifiers are unique per connection only *)
+Definition ow_key (cid : nat) (hbh e2e : Z) (x : nat * Z * Z * string) : bool :=
+  let '(c, h, e, _) := x in Nat.eqb c cid && (h =? hbh) && (e =? e2e).
+Definition record_answer (n : node) (cid : nat) (hbh e2e : Z) : node :=
+  match List.find (ow_key cid hbh e2e) (n_origin_waiting n) with
   | None => n
-  | Some (_, _, origin) =>
+  | Some (_, _, _, origin) =>
       set_waiting n (n_app_waiting n) (n_peer_waiting n)
-        (List.filter (fun x => let '(h, e, _) := x in negb ((h =? hbh) && (e =? e2e))) (n_origin_waiting n))
+        (List.filter (fun x => negb (ow_key cid hbh e2e x)) (n_origin_waiting n))
         (sa_append (g_rsize (n_cfg n)) (n_sent_answers n) origin e2e)
   end.
 
 (* a request that will never be answered leaves the origin table (route_answer failing after it took the waiting
    entry; a capabilities-exchange request that is ignored) *)
-Definition drop_origin (n : node) (hbh e2e : Z) : node :=
+Definition drop_origin (n : node) (cid : nat) (hbh e2e : Z) : node :=
   set_waiting n (n_app_waiting n) (n_peer_waiting n)
-    (List.filter (fun x => let '(h, e, _) := x in negb ((h =? hbh) && (e =? e2e))) (n_origin_waiting n))
+    (List.filter (fun x => negb (ow_key cid hbh e2e x)) (n_origin_waiting n))
     (n_sent_answers n).
 
 Definition mem_zz (x : Z * Z) (l : list (Z * Z)) : bool := List.existsb (fun y => (fst x =? fst y) && (snd x =? snd y)) l.
@@ -303,7 +306,7 @@ Definition send_message (n : node) (cid : nat) (m : omsg) : node * list output :
          | None => n
          end in
   let '(n2, out) := queue_out n1 cid m in
-  ((if o_req m then n2 else record_answer n2 (o_hbh m) (o_e2e m)), out).
+  ((if o_req m then n2 else record_answer n2 cid (o_hbh m) (o_e2e m)), out).
 
 (* Message.to_answer + Node._generate_answer, reduced to what is observed *)
 Definition answer_of (m : msg) (result : option Z) (failed : list (Z * Z)) : omsg :=
@@ -387,7 +390,7 @@ Definition remove_conn (n : node) (cid : nat) (reason : Z) : node :=
                   end in
       let n3 := set_waiting n2 (n_app_waiting n2)
                   (List.filter (fun e => negb (String.eqb (fst e) (c_host c))) (n_peer_waiting n2))
-                  (List.filter (fun x => let '(h, e, _) := x in negb (mem_zz (h, e) gone)) (n_origin_waiting n2))
+                  (List.filter (fun x => let '(k, h, e, _) := x in negb (Nat.eqb k cid && mem_zz (h, e) gone)) (n_origin_waiting n2))
                   (n_sent_answers n2) in
       let n4 := set_tables n3 (remove_nat cid (n_half_ready n3)) (remove_nat cid (n_socket_peers n3)) in
       set_apps n4 (List.map (fun ia => let '(i, a) := ia in
@@ -434,7 +437,7 @@ Definition recv_cer (n : node) (cid : nat) (m : msg) : node * list output :=
   match get_conn n cid with
   | None => (n, [])
   | Some c0 =>
-  if negb (cstate_eqb (c_state c0) SConnected) then (drop_origin n (m_hbh m) (m_e2e m), [])  (* only while the CER is awaited *)
+  if negb (cstate_eqb (c_state c0) SConnected) then (drop_origin n cid (m_hbh m) (m_e2e m), [])  (* only while the CER is awaited *)
   else
   match pres_get (m_origin m) with
   | None => (n, [])      (* cannot happen after validation; AttributeError path handled by the caller *)
@@ -607,8 +610,8 @@ Definition receive_message (n : node) (cid : nat) (m : msg) : node * list output
   let record := fun o =>
         if m_req m then
           set_waiting n (n_app_waiting n) (n_peer_waiting n)
-            ((List.filter (fun x => let '(h, e, _) := x in negb ((h =? m_hbh m) && (e =? m_e2e m))) (n_origin_waiting n))
-               ++ [(m_hbh m, m_e2e m, o)])%list
+            ((List.filter (fun x => negb (ow_key cid (m_hbh m) (m_e2e m) x)) (n_origin_waiting n))
+               ++ [(cid, m_hbh m, m_e2e m, o)])%list
             (n_sent_answers n)
         else n in
   let n0 := match m_origin m with
@@ -839,9 +842,9 @@ Definition route_answer (n : node) (m : omsg) : option nat * node :=
       let n1 := set_waiting n (n_app_waiting n) (pw_remove (n_peer_waiting n) host (o_hbh m, o_e2e m))
                             (n_origin_waiting n) (n_sent_answers n) in
       match List.find (fun c => String.eqb (c_host c) host) (n_conns n1) with
-      | None => (None, drop_origin n1 (o_hbh m) (o_e2e m))
+      | None => (None, n1)        (* the entries of a connection leave with it: nothing of this request is left *)
       | Some c => if is_ready_state (c_state c) then (Some (c_id c), n1)
-                  else (None, drop_origin n1 (o_hbh m) (o_e2e m))
+                  else (None, drop_origin n1 (c_id c) (o_hbh m) (o_e2e m))
       end
   end.
 
